@@ -5,7 +5,7 @@ from mc import core, det, vnet, fe, xstate, sse
 PROPERTY = 'C11'
 ENGINE = 'E2 explicit-state search (BFS to fixpoint + all histories to depth k, no dedup) over the real client Service (fresh object per operation, CLI style) against a live server on the E3 virtual network'
 LEVEL = 'model_checking'
-ALPHABET = ['create', 'create-invalid', 'genkey', 'encrypt', 'upload-config', 'upload-index', 'search']
+ALPHABET = ['create', 'create-invalid', 'create-again', 'genkey', 'encrypt', 'upload-config', 'upload-index', 'search']
 DEPTH = {'quick': 4, 'thorough': 6}
 B_CREATED, B_CFG_UP, B_KEY, B_ENC, B_IDX_UP = 1, 2, 4, 8, 16
 NO_SID = 'f' * 64
@@ -13,7 +13,7 @@ NO_SID = 'f' * 64
 
 def describe(tier):
     return {
-        'rule': 'state = history of client operations, each executed CLI-style by a client object freshly loaded from disk (Service(sid) ... '
+        'rule': 'state = history of client operations (incl. create-again: the create command given the existing service\'s own salted configuration), each executed CLI-style by a client object freshly loaded from disk (Service(sid) ... '
                 'close_service()) against a live server on the virtual network; alphabet = {create(valid cfg), create(cfg the scheme rejects), '
                 'genkey, encrypt(DB), upload-config, upload-index, search(w)}. Reference model = 5 flags with the prerequisite relation of '
                 'frontend/README.md. (a) BFS to fixpoint over canon = (model flags, persisted client flags, client file names, server state and '
@@ -21,7 +21,7 @@ def describe(tier):
                 '(refused = the handler raises); after a refusal the client service directory is byte-identical; persisted flags equal the model\'s; '
                 'the key file never changes after first creation; an uninstantiable configuration creates nothing; once the index is uploaded every '
                 'search returns DB[w]. non-trivial = history with at least one accepted operation.' % DEPTH[tier],
-        'bounds': 'alphabet 7; BFS fixpoint; all histories of length <= %d' % DEPTH[tier],
+        'bounds': 'alphabet 8; BFS fixpoint; all histories of length <= %d' % DEPTH[tier],
         'assumptions': ['the server cleanup delay elapses between two CLI commands (each command is a separate process run in reality)',
                         'scheme = CJJ14.PiBas (thorough: also CT14.Pi); the guards under test are scheme-independent'],
         'must_be_nonzero': ['bfs-fixpoint', 'dfs-histories', 'refused', 'accepted', 'searches-after-upload', 'key-checked'],
@@ -72,7 +72,9 @@ class ClientSystem:
         s.w.close()
 
     def events(self, s):
-        return ALPHABET
+        # 'create-again' = the CLI's create command (a brand-new Service object) given the existing service's own, already
+        # salted configuration: it hashes to the same sid and must be refused like any second create
+        return ALPHABET if s.flags & B_CREATED else [e for e in ALPHABET if e != 'create-again']
 
     def client_snapshot(self, s):
         root = str(self.m['cfm']._PROGRAM_PATH)
@@ -101,7 +103,7 @@ class ClientSystem:
         f = s.flags
         if ev == 'create':
             return not f & B_CREATED
-        if ev == 'create-invalid':
+        if ev in ('create-invalid', 'create-again'):
             return False
         if ev == 'genkey':
             return bool(f & B_CREATED) and not f & B_KEY
@@ -121,7 +123,13 @@ class ClientSystem:
         accept = self.model_accepts(s, ev)
         raised, result = None, None
         try:
-            if ev in ('create', 'create-invalid'):
+            if ev == 'create-again':
+                import json as _json
+                cfg = _json.loads(s.w.client_files(cl.sid)['config.json'])
+                Service = self.m['cservice'].Service
+                fresh = cl._call(lambda: Service())
+                cl._call(fresh.handle_create_config, cfg)
+            elif ev in ('create', 'create-invalid'):
                 cfg = copy.deepcopy(self.cfg if ev == 'create' else self.bad_cfg)
                 if not cl.sid:
                     sid_before = set(os.listdir(str(self.m['cfm']._PROGRAM_PATH)))
